@@ -160,3 +160,16 @@ Proof.
   intros Hr. rewrite (cluster_valid_iff c Hr). destruct (Nat.eqb (count_ops (snd c)) 0); [reflexivity|]. cbn [orb].
   destruct (decompose (snd c)) eqn:E; [reflexivity|]. exfalso. now apply (decompose_total (snd c)).
 Qed.
+
+(* legality is kept by the cluster update with the labelling the decomposition actually returns *)
+From QmcV Require Import Proofs.LegalityProofs.
+Corollary decomposed_flip_legal H sl st b n flips :
+  decompose sl = Some (b, n) ->
+  (forall o, In (Some o) sl -> is_edge o = false -> flip_sym H o) ->
+  (forall o, In (Some o) sl -> is_edge o = true -> edge_free H o) ->
+  all_legal H sl = true ->
+  all_legal H (fst (apply_flips sl st b flips)) = true.
+Proof.
+  intros Hd H1 H2 Hl. destruct (decompose_valid sl b n Hd) as [_ Hs].
+  exact (cluster_flip_legal_uniform H sl st b flips H1 H2 Hs Hl).
+Qed.
